@@ -140,6 +140,51 @@ def h_timers(ex, ops, horizon=None):
     ex.witness()
 
 
+def h_overrun(ex, period='300ms', slow_at='100ms', slow_for='7/10', horizon='5/2'):
+    """a callback that keeps the job thread busy for longer than another timer's period: the periodic timer is
+    serviced late once and is then back on its registration grid (no accumulated drift)"""
+    w = W.World(ex, mode='timed', eps_range=EPS)
+    n = w.add_node('E')
+    ecu = n.ecu
+    w.run(until=T('1/100'))
+    delta = GRID[period]
+    calls = []
+    busy = []
+
+    def periodic(cookie):
+        w.callback_fired()
+        calls.append(w.now)
+        return True
+
+    def slow(cookie):
+        w.callback_fired()
+        t_in = w.now
+        w.run(until=w.now + Fraction(slow_for))     # the job thread is busy in this callback
+        busy.append((t_in, w.now))
+        return False
+
+    t0 = w.now
+    ecu.add_timer(delta, periodic)
+    ecu.add_timer(GRID[slow_at], slow)
+    w.run(until=w.now + Fraction(horizon))
+    emax = EPS[1]
+    ex.claim('overrun.slow_callback_ran', len(busy) == 1)
+    if busy:
+        t_in, t_out = busy[0]
+        nmax = int(Fraction(horizon) / delta) + 2
+        for c in calls:
+            if bool(c > t_out + emax):
+                # after the overrun every call lies on the registration grid again
+                on_grid = sym_or(*[sym_and(c >= t0 + delta * k, c <= t0 + delta * k + emax) for k in range(1, nmax)])
+                ex.claim('overrun.back_on_the_grid', on_grid, {'period': period, 'slow_for': slow_for, 'calls': len(calls)})
+        late = [c for c in calls if bool(c > t_out + emax)]
+        expected_after = [k for k in range(1, nmax) if bool(t0 + delta * k > t_out + emax) and bool(t0 + delta * k + emax < t0 + Fraction(horizon))]
+        ex.claim('overrun.no_call_lost_after_overrun', len(late) >= len(expected_after), {'after': len(late), 'expected': len(expected_after)})
+    ex.claim('job_thread_alive', n.job_alive())
+    ex.observe('calls', calls)
+    ex.witness()
+
+
 def h_subs(ex, pattern):
     """subscribe / unsubscribe with duplicates: after unsubscribe(cb) returns cb is never called again.
     pattern: list of callable names registered in order, e.g. ['a','a','b','a']; then 'a' is unsubscribed."""
@@ -222,6 +267,8 @@ def jobs(tier):
             if any(o[1] == 'add@' and o[3] == '10ms' for o in ops):
                 params['horizon'] = '11/50'  # a 10 ms timer: every call adds a symbolic latency to all later queries
         out.append(Job('C12', 'c12:h_timers', params, W=40, wall=120 if tier == 'quick' else 900, max_paths=20000, validate=1))
+    out.append(Job('C12', 'c12:h_overrun', {}, W=40, wall=300, validate=1))
+    out.append(Job('C12', 'c12:h_overrun', {'period': '100ms', 'slow_at': '300ms', 'slow_for': '11/20', 'horizon': '3/2'}, W=40, wall=300, validate=1))
     pats = [['a'], ['a', 'a'], ['a', 'b', 'a'], ['b', 'a', 'a', 'b'], ['a', 'a', 'a'], ['a', 'a', 'a', 'a', 'b']]
     if tier != 'quick':
         pats += [list(p) for n in (3, 4, 5) for p in itertools.product('ab', repeat=n) if 'a' in p]
@@ -241,6 +288,6 @@ def meta(tier):
                    'callback return value: True / False / fresh symbolic bool per call',
                    'subscribe/unsubscribe: registration patterns over two callables with 1..5 entries, PDU2 frame with symbolic PF/GE',
                    'horizon 2 s after the last operation'],
-        'outside': ['histories longer than 5 operations', 'periods shorter than the scheduling latency', 'callbacks that take time'],
+        'outside': ['histories longer than 5 operations', 'periods shorter than the scheduling latency', 'callbacks that take time (except the overrun shape: one callback busy for 0.55 / 0.7 s next to a 100 / 300 ms periodic timer)'],
         'assumptions': ['callbacks are instantaneous in virtual time'],
     }
